@@ -242,6 +242,39 @@ def run(ctx):
             nviol += 1
             ctx.violation("C19|value|%s" % kind, "value does not survive the JSON round trip",
                           {"value": repr(v), "restored": repr(o2[1])[:200], "call": "deserialize(json.loads(json.dumps(make_serializable(v))))"})
+    # ---- histories: the same (mutable) object serialised again after it was modified in place - every serialisation must
+    #      describe the object as it is NOW (a serialiser that remembers objects by identity would return the old snapshot)
+    nhist = 0
+    for sh, dt in [((3,), np.float64), ((2, 2), np.float64), ((2,), np.int64), ((3,), bool), ((1, 3), np.float64)]:
+        n_ = int(np.prod(sh))
+        a = np.asarray([rng.randrange(-50, 50) / 8.0 for _ in range(n_)]).reshape(sh).astype(dt)
+        holder = {"arr": a, "k": 1.5}
+        first = (json.dumps(make_serializable(a)), json.dumps(make_serializable(holder)))
+        before = a.copy()
+        a[...] = (np.asarray([rng.randrange(51, 90) / 8.0 for _ in range(n_)]).reshape(sh)).astype(dt) if dt is not bool else ~a
+        for what, obj, get in (("array", a, lambda r_: r_), ("dict holding the array", holder, lambda r_: r_["arr"])):
+            nhist += 1
+            o = enc.outcome(lambda: get(deserialize(json.loads(json.dumps(make_serializable(obj))))))
+            if o[0] != "ok" or not same_value(o[1], a):
+                ctx.violation("C19|history|modified-in-place|%s" % what.split()[0],
+                              "a NumPy array serialised again after an in-place modification does not restore to its current value",
+                              {"sequence": "s1 = make_serializable(obj); obj's array modified in place; deserialize(json round trip of make_serializable(obj))",
+                               "object": what, "array_before": before.tolist(), "array_now": a.tolist(), "dtype": str(a.dtype),
+                               "restored": repr(o[1])[:200]})
+    import mellon.cov as C_
+    for cls_ in (C_.Matern52, C_.ExpQuad):
+        ad = np.asarray([0, 1])
+        kk = cls_(1.25, active_dims=ad)
+        j1 = kk.to_json()
+        ad[:] = [1, 2]
+        nhist += 1
+        o = enc.outcome(lambda: Covariance.from_json(kk.to_json()))
+        Xh = np.asarray([[rng.randrange(-20, 20) / 8.0 for _ in range(3)] for _ in range(4)])
+        if o[0] != "ok" or not np.array_equal(np.asarray(o[1](Xh, Xh)), np.asarray(kk(Xh, Xh))):
+            ctx.violation("C19|history|modified-in-place|kernel", "a kernel serialised again after its NumPy active_dims changed in place restores to the old columns",
+                          {"kernel": repr(kk), "sequence": "k.to_json(); k.active_dims[:] = [1, 2]; Covariance.from_json(k.to_json())",
+                           "X": Xh.tolist(), "restored": repr(o[1])[:200]})
+    dist["history:modified-in-place"] = nhist
     # malformed stream for deserialize / from_dict
     bad_inputs = [{"type": "bogus", "data": 1}, {"data": [1]}, {"type": "slice", "data": [1, 2]}, [1, "None", None], "None", 5,
                   {"type": "jax.numpy", "data": [[1.0, 2.0]]}, {"type": "jax.numpy", "data": [1, 2], "dtype": "int64", "shape": [2]}]
